@@ -346,6 +346,11 @@ def dispatch (op : String) (args : List String) : String :=
         | _ => project2 f g
       "ok " ++ showTens ⟨[3], #[r 0, r 1, r 2]⟩
     | _, _ => "bad-op"
+  | "m.circumcenter2", [a, b, c] => match parseVec a, parseVec b, parseVec c with
+    | some a, some b, some c =>
+      let r : Nat → Q := circumcenter2 (fun k => a.getD k 0) (fun k => b.getD k 0) (fun k => c.getD k 0)
+      "ok " ++ showTens ⟨[3], #[r 0, r 1, r 2]⟩
+    | _, _, _ => "bad-op"
   | "m.planefoot", [e, p] => match parseVec e, parseVec p with
     | some e, some p =>
       let r : Nat → Q := planeFoot (fun k => e.getD k 0) (fun k => p.getD k 0)
